@@ -19,7 +19,7 @@ import lib, gen, mcb_oracle as O
 
 LIBS = ["-ltbb", "-lboost_timer"]
 ALGS = ["signed", "fvs", "iso"]
-DKEYS = ["SPR", "SPD", "ROOTS", "EORD", "RET", "THROW", "N", "CYC"]
+DKEYS = ["SPR", "SPD", "ROOTS", "EORD", "FVS", "RET", "THROW", "N", "CYC"]
 KS = [0, 1, 1, 1, 2, 2, 2, 3, 3, 5, 50]
 
 
@@ -135,7 +135,7 @@ def split_io(line):
     if " DIR " not in line:
         return line.strip(), None, None
     pub, rest = line.split(" DIR ", 1)
-    f = lib.fields(rest, ["SPR", "SPD", "ROOTS", "EORD", "RET", "THROW"])
+    f = lib.fields(rest, ["SPR", "SPD", "ROOTS", "EORD", "FVS", "RET", "THROW"])
     i = rest.find(" RET "); j = rest.find(" THROW ")
     p = i if i >= 0 else j
     ans = rest[p:].strip() if p >= 0 else ""
@@ -303,6 +303,26 @@ def run(c, tier, what):
         for i, o in zip(idx, lib.run_model(comp, [mcase[i][1] for i in idx], group="c05")):
             model_out[i] = o
     c.extra["model_runs"] = len(model_out)
+    # ---- tree-based entry points: the exact phase's answer must be an ACCEPTED run of mcb_sva_fvs_trees on the spanner ------
+    # (ApproxTreesModel.approx_sva_fvs_trees_Z under the recovered root order and greedy_fvs picks of the spanner; theorems
+    #  Properties_C05_trees.v / Properties_C06_trees.v quantify over exactly these runs)
+    acc_out = {}
+    aidx = []
+    for i in mcase:
+        if mcase[i][0] != "given": continue
+        alg, ty, scale, k, n, es = parsed[i]
+        f = split[i][1]
+        a = parse_answer(split[i][2])
+        if k < 1 or a[0] != "RET" or "FVS" not in f: continue
+        nsp = len(a[2]) - len(f["SPD"])
+        if n > 26 or len(es) > 100 or nsp * len(es) > (2500 if tier == "quick" else 6000): continue
+        t = mcase[i][1].split()
+        # given: k <graph> <scan> sw N cycles  ->  fvstrees: k <graph> <scan> <roots> <picks> N cycles
+        gend = 3 + 3 * len(es); send = gend + 1 + len(es)
+        aidx.append((i, "%s %s %s %s" % (" ".join(t[:send]), lst(f.get("ROOTS", [])), lst(f["FVS"]), " ".join(t[send + 1:]))))
+    for (i, _), o in zip(aidx, lib.run_model("fvstrees", [x[1] for x in aidx], group="c05", timeout=1500)):
+        acc_out[i] = o
+    c.extra["trees_acceptance_runs"] = len(acc_out)
     # ---- optimum (C06) ------------------------------------------------------------------------------------------
     opts = {}
     def opt_of(i):
@@ -353,6 +373,8 @@ def run(c, tier, what):
             mspr, mspd, mans = split_model(model_out[i])
             if mspr != f.get("SPR", []) or mspd != f.get("SPD", []): corr = "spanner (retained/dropped) differs from construct_spanner under the recovered scan order"
             elif canon(dans) != canon(mans): corr = "emitted cycles / returned value differ from the model"
+            elif i in acc_out and split_model(acc_out[i])[2] != mans:
+                corr = "the exact phase's answer on the spanner is not an accepted run of TreesModel.mcb_sva_trees (FVS builder) under the recovered root order / greedy_fvs picks: " + split_model(acc_out[i])[2][:80]
         if corr is None:
             da = parse_answer(dans)
             if pa[0] != da[0]: corr = "public entry point and the same statements executed by the harness disagree (throw vs return)"
@@ -421,6 +443,10 @@ def run(c, tier, what):
 
 def replay_case(pid, path, what):
     r = json.load(open(path))
+    if r.get("case", "").startswith("P "):
+        rc = replay_tbb(pid, r, what)
+        if rc: print("VIOLATION property=%s replay=%s" % (pid, path))
+        return rc
     lib.ensure_model("c05")
     exe, err = lib.build_cpp(name="c05", srcs=["c05.cpp"], libs=LIBS)
     line = r["case"]
@@ -449,3 +475,292 @@ def replay_case(pid, path, what):
     if bad:
         print("VIOLATION property=%s replay=%s" % (pid, path)); return 1
     return 0
+
+
+# ================================================================================================================
+# the TBB-parallel approximate entry points under the controllable fake TBB (harness/c05_tbb.cpp, shim build)
+# ================================================================================================================
+# Theorems: Properties_C03_approx.v.  Model: ApproxParModel.approx_run_tbb (extraction group c05: signedtbb / giventbb).
+# Per case the harness prints PUB (public entry point under (bits, perm1), the shim's own protocol), DIR (the same two
+# statements on an object it keeps; the library's exact functor wrapped by a hook that records the stream position after the
+# exact phase and installs the two insertion orders permc / permw of the builder's concurrent_vectors) and SEQ (the
+# sequential entry point).
+#   E-level: DIR == model under the same bit stream and insertion orders: spanner, every emitted cycle IN EMISSION ORDER (as a
+#            set), returned value, number of schedule bits consumed.  signed: whole run (exact phase = ParSignedModel on the
+#            spanner under the recovered oracles); fvs / iso: exact phase's answer and stream position supplied.
+#   same-as-sequential (C03): returned value, count and the MULTISET of dropped-edge cycles of DIR, PUB and SEQ coincide.
+#   Judge: PUB, DIR and SEQ answers against the property text (judge_basis / judge_bound).
+TBB_LIBS = ["-lboost_timer"]
+TBB_ALGS = ["signed", "fvs", "iso"]
+TBB_CORR = "correspondence c05_tbb: ApproxParModel.approx_run_tbb vs harness/c05_tbb.cpp (%s; unchanged headers on the controllable TBB shim)"
+
+
+def tbb_rand_bits(rng):
+    r = rng.random()
+    if r < 0.06: return ""                      # nothing split
+    if r < 0.20: return "1"                     # split everything, forks, right parts first
+    if r < 0.28: return "110"                   # split everything, forks, left first
+    if r < 0.33: return "100"                   # split everything, no fork
+    if r < 0.38: return "101"
+    if r < 0.45: return "111110"                # forks right-first alternating with forks left-first
+    nb = rng.choice([2, 3, 5, 7, 8, 13, 21, 34, 55, 64])
+    p = rng.choice([0.5, 0.7, 0.85, 0.95])
+    return "".join("1" if rng.random() < p else "0" for _ in range(nb))
+
+
+def tbb_graph(rng, maxn):
+    """families for the dropped-edge builder: many dropped edges (dense), none (trees; k = 1), exactly one (a short cycle), mixed"""
+    r = rng.random()
+    if r < 0.22: g = gen.complete(rng.randint(4, min(8, maxn)))
+    elif r < 0.40: g = gen.random_graph(rng, rng.randint(5, maxn), rng.choice([0.5, 0.7, 0.9]))
+    elif r < 0.48: g = gen.wheel(rng.randint(5, min(10, maxn)))
+    elif r < 0.55: g = gen.bipartite(rng.randint(2, 4), rng.randint(3, 5))
+    elif r < 0.62: g = gen.random_tree(rng, rng.randint(2, maxn))                       # zero dropped edges
+    elif r < 0.72: g = gen.cycle(rng.randint(3, 6))                                    # exactly one dropped edge for k >= 3
+    elif r < 0.78: g = gen.add_pendant_trees(rng, gen.cycle(rng.randint(3, 5)), rng.randint(1, 3))
+    elif r < 0.86: g = spanner_keeps_cycles(rng, maxn)
+    elif r < 0.93: g = gen.disjoint_union(gen.complete(rng.randint(3, 5)), gen.random_graph(rng, rng.randint(3, 7), 0.6))
+    else: g = gen.structural(rng, maxn)
+    if g[0] > 0 and rng.random() < 0.7: g = gen.relabel(rng, g[0], g[1])
+    return g
+
+
+def tbb_line(alg, ty, scale, k, bits, perm1, permc, permw, gt, trace=0):
+    return "P %s %s %d %d %d %s %s %s %s %d %s" % (alg, ty, scale, k, len(bits), bits or "-", lst(perm1), lst(permc), lst(permw), trace, gt)
+
+
+def tbb_base_cases(rng, tier):
+    ng = 260 if tier == "quick" else 2000
+    maxn = 11 if tier == "quick" else 22
+    out = []
+    for i in range(ng):
+        g, style = gen.weigh(rng, tbb_graph(rng, maxn))
+        gt = gen.graph_tokens(g)
+        ks = [rng.choice([1, 2, 2, 3, 5])] if rng.random() < 0.6 else [1, rng.choice([2, 3, 5])]
+        if i % 29 == 0: ks.append(0)
+        for k in ks:
+            for alg in TBB_ALGS:
+                ty = "I" if (i % 3 == TBB_ALGS.index(alg)) and gen.int_domain_ok(g) else "D"
+                scale = 0 if ty == "I" else rng.choice([0, 0, -3, 5])
+                out.append(tbb_line(alg, ty, scale, k, tbb_rand_bits(rng), [], [], [], gt))
+    return out
+
+
+def tbb_parse_case(line):
+    t = line.split()
+    alg, ty, scale, k = t[1], t[2], int(t[3]), int(t[4])
+    nb = int(t[5]); bits = "" if t[6] == "-" else t[6]
+    p = 7; perms = []
+    for _ in range(3):
+        n_ = int(t[p]); perms.append([int(x) for x in t[p + 1:p + 1 + n_]]); p += 1 + n_
+    trace = int(t[p]); p += 1
+    n, es, _ = lib.parse_graph_tokens(t, p)
+    return {"alg": alg, "ty": ty, "scale": scale, "k": k, "bits": bits, "perm1": perms[0], "permc": perms[1], "permw": perms[2],
+            "n": n, "es": es, "gt": " ".join(t[p:])}
+
+
+def tbb_split_io(line):
+    """-> dict(pub, pubsched, f (DIR fields), dir, sched, seq) or None"""
+    if " DIR " not in line or " SEQ " not in line or " PUBSCHED " not in line: return None
+    pub, rest = line.split(" PUBSCHED ", 1)
+    ps, rest = rest.split(" DIR ", 1)
+    d, seq = rest.split(" SEQ ", 1)
+    if " TRACE" in seq: seq = seq.split(" TRACE")[0]
+    f = lib.fields(d, ["SPR", "SPD", "ROOTS", "EORD", "FVS", "POS1", "RET", "THROW", "SCHED"])
+    i = d.find(" RET "); j = d.find(" THROW ")
+    p = i if i >= 0 else j
+    if p < 0 or " SCHED " not in d: return None
+    ans = d[p:d.find(" SCHED ")].strip()
+    return {"pub": pub.strip(), "pubsched": ps.split(), "f": f, "dir": ans, "sched": f.get("SCHED", []), "seq": seq.strip()}
+
+
+def tbb_model_case(d, s):
+    """(component, model input line) or None"""
+    f = s["f"]
+    try:
+        spr = [int(x) for x in f["SPR"]]; spd = [int(x) for x in f["SPD"]]
+    except Exception:
+        return None
+    es = d["es"]
+    if sorted(spr + spd) != list(range(len(es))): return None
+    scan = recover_scan(es, spr, spd)
+    head = "%d %s %s" % (d["k"], d["gt"], lst(scan))
+    bits = "%d %s" % (len(d["bits"]), d["bits"] or "-")
+    if d["alg"] == "signed":
+        return "signedtbb", "%s %s %s %s %s %s %s" % (head, lst(f.get("ROOTS", [])), lst(f.get("EORD", [])), bits,
+                                                      lst(d["perm1"]), lst(d["permc"]), lst(d["permw"]))
+    a = parse_answer(s["dir"])
+    pos1 = (f.get("POS1") or ["0"])[0]
+    if a[0] == "THROW":
+        return "giventbb", "%s 0 0 %s %s %s %s" % (head, pos1, bits, lst(d["permc"]), lst(d["permw"]))
+    if a[0] != "RET": return None
+    inv = {e: i for i, e in enumerate(spr)}
+    nsp = len(a[2]) - len(spd)
+    if nsp < 0: return None
+    scyc = []
+    for cy in a[2][:nsp]:
+        if any(x not in inv for x in cy): return None
+        scyc.append(sorted(inv[x] for x in cy))
+    sw = sum(es[x][2] for cy in a[2][:nsp] for x in cy)
+    return "giventbb", "%s %d %d %s %s %s %s %s" % (head, sw, len(scyc), " ".join(lst(cy) for cy in scyc), pos1, bits, lst(d["permc"]), lst(d["permw"]))
+
+
+def tbb_split_model(line):
+    f = lib.fields(line, ["SPR", "SPD", "RET", "THROW", "MODEL-ERROR", "MODEL-EXCEPTION", "POS"])
+    i = min([p for p in (line.find("RET "), line.find("THROW "), line.find("MODEL-")) if p >= 0] or [0])
+    j = line.find(" POS ")
+    return f.get("SPR", []), f.get("SPD", []), (line[i:j] if j >= 0 else line[i:]).strip(), (f.get("POS") or ["?"])[0]
+
+
+def tail_multiset(ans, nd):
+    a = parse_answer(ans)
+    if a[0] != "RET" or nd == 0: return []
+    return sorted(sorted(map(str, cy)) for cy in a[2][len(a[2]) - nd:])
+
+
+def tbb_second_batch(rng, lines, outs, tier):
+    """cases with explicit insertion orders, sized from the first pass (|dropped|, spanner's cycle space dimension)"""
+    extra = []
+    for l, o in zip(lines, outs):
+        s = tbb_split_io(o)
+        if s is None: continue
+        d = tbb_parse_case(l)
+        a = parse_answer(s["dir"])
+        if a[0] != "RET": continue
+        nd = len(s["f"].get("SPD", [])); nsp = len(a[2]) - nd
+        if nd < 2 and not (nsp >= 2 and d["alg"] == "signed" and rng.random() < 0.3): continue
+        if rng.random() < (0.25 if tier == "quick" else 0.1): continue
+        def perm(m):
+            p = list(range(m)); rng.shuffle(p); return p
+        r = rng.random()
+        if nd < 2: pc, pw = [], []
+        elif r < 0.30: pc = perm(nd); pw = list(pc)                    # one order for both containers (what the shim alone can do)
+        elif r < 0.70: pc, pw = perm(nd), perm(nd)                      # the two pushes interleave differently
+        elif r < 0.80: pc, pw = perm(nd), []                            # only `cycles` rearranged
+        elif r < 0.90: pc, pw = [], perm(nd)                            # only `cycles_weights` rearranged
+        elif r < 0.95: pc, pw = perm(nd + 1), perm(nd)                  # wrong size: ignored
+        else: pc, pw = perm(nd), [0] * nd                               # not a permutation: ignored
+        p1 = perm(nsp) if (d["alg"] == "signed" and nsp >= 2 and rng.random() < 0.5) else []
+        extra.append(tbb_line(d["alg"], d["ty"], d["scale"], d["k"], tbb_rand_bits(rng) if rng.random() < 0.5 else d["bits"], p1, pc, pw, d["gt"]))
+    return extra
+
+
+def run_tbb(c, tier, what):
+    """what = 'basis' (C05) or 'bound' (C06); the model group c05 must have been built (run() did)"""
+    exe = c.harness(name="c05_tbb", srcs=["c05_tbb.cpp"], libs=TBB_LIBS, shim=True)
+    if not exe: return
+    pid = c.pid
+    corpus = [cs for cs in lib.corpus_cases(pid) if cs.startswith("P ")]
+    base = tbb_base_cases(c.rng, tier)
+    out1 = lib.run_lines([exe], base)
+    extra = tbb_second_batch(c.rng, base, out1, tier)
+    out2 = lib.run_lines([exe], corpus + extra)
+    lines = corpus + extra + base
+    io = out2 + out1
+    parsed = [tbb_parse_case(l) for l in lines]
+    split = [tbb_split_io(o) for o in io]
+    mcase = {}
+    for i, s in enumerate(split):
+        if s is None: continue
+        mc = tbb_model_case(parsed[i], s)
+        if mc: mcase[i] = mc
+    model_out = {}
+    for comp in ("signedtbb", "giventbb"):
+        idx = [i for i in mcase if mcase[i][0] == comp]
+        for i, o in zip(idx, lib.run_model(comp, [mcase[i][1] for i in idx], group="c05")):
+            model_out[i] = o
+    c.extra["tbb_model_runs"] = len(model_out)
+    opts = {}
+    def opt_of(i):
+        d = parsed[i]
+        if d["gt"] not in opts: opts[d["gt"]] = O.mcb(d["n"], d["es"])[0]
+        return opts[d["gt"]]
+    def judge(i, ans):
+        d = parsed[i]
+        if what == "basis": return judge_basis(d["n"], d["es"], d["k"], ans) if d["k"] >= 1 else None
+        return judge_bound(d["n"], d["es"], d["k"], ans, opt_of(i))
+    nviol = {}
+    def report(kind, i, why, found=True, extra_=None):
+        if nviol.get(kind, 0) >= 3: return
+        nviol[kind] = nviol.get(kind, 0) + 1
+        rep = {"component": "c05_tbb", "case": lines[i], "impl": io[i]}
+        if i in model_out: rep["model"] = model_out[i]; rep["model_component"] = mcase[i][0]; rep["model_case"] = mcase[i][1]
+        rep.update(extra_ or {})
+        c.violation(why, rep, found)
+    stats = {"forks>=1": 0, "perm_c != perm_w": 0, "dropped>=2": 0, "dropped=1": 0, "dropped=0": 0}
+    for i, l in enumerate(lines):
+        d = parsed[i]; s = split[i]
+        n, es, k, alg = d["n"], d["es"], d["k"], d["alg"]
+        N = len(es) - n + O.components(n, es)
+        nd = len(s["f"].get("SPD", [])) if s else -1
+        nontrivial = (N >= 1 and k >= 1) if what == "basis" else (N >= 1 or k == 0)
+        c.count(l, nontrivial, bucket="tbb %s k=%d %s" % (alg, k, "N=0" if N == 0 else "dropped=0" if nd == 0 else "dropped=1" if nd == 1 else "dropped>=2"))
+        if s is None or io[i].startswith(("IMPL-EXCEPTION", "CRASH")):
+            report("crash", i, "approx_mcb_sva_%s_tbb(k=%d) on a valid input did not return normally under the schedule of the case: %s" % (alg, k, io[i][:200])); continue
+        if len(s["sched"]) >= 3 and s["sched"][2] != "0": stats["forks>=1"] += 1
+        if d["permc"] != d["permw"]: stats["perm_c != perm_w"] += 1
+        stats["dropped>=2" if nd >= 2 else "dropped=1" if nd == 1 else "dropped=0"] += 1
+        # -- judge the three answers against the property text
+        bad = False
+        for tag, ans in ((" (public entry point)", s["pub"]), (" (same statements, object kept by the harness)", s["dir"])):
+            why = judge(i, ans)
+            if why:
+                report("judge", i, "approx_mcb_sva_%s_tbb, k=%d, bits=%s, insertion orders %s / %s%s: %s" % (alg, k, d["bits"] or "-", d["permc"], d["permw"], tag, why)); bad = True; break
+        if bad: continue
+        # -- C03: same multiset of dropped-edge cycles and same returned value as the sequential entry point
+        pa, da, sa = parse_answer(s["pub"]), parse_answer(s["dir"]), parse_answer(s["seq"])
+        same = None
+        if not (pa[0] == da[0] == sa[0]): same = "throw vs return"
+        elif da[0] == "RET":
+            if not (pa[1] == da[1] == sa[1]): same = "returned values %s (public, TBB) / %s (kept object, TBB) / %s (sequential)" % (pa[1], da[1], sa[1])
+            elif not (len(pa[2]) == len(da[2]) == len(sa[2])): same = "number of cycles"
+            elif not (tail_multiset(s["pub"], nd) == tail_multiset(s["dir"], nd) == tail_multiset(s["seq"], nd)): same = "multiset of dropped-edge cycles"
+        if same:
+            why = judge(i, s["seq"])
+            report("same", i, "approx_mcb_sva_%s_tbb vs the sequential entry point, k=%d: %s differ%s" % (alg, k, same, "" if not why else " (the sequential answer fails the property text: %s)" % why),
+                   bool(why),
+                   {"theorem_or_correspondence": "Properties_C03_approx.C03_approx_signed_tbb_vs_sequential / C03_approx_tbb_same_as_seq on the real code"}); continue
+        # -- correspondence with the model
+        corr = None
+        if i not in model_out:
+            corr = "the run could not drive the model (spanner / emitted ids not recoverable)"
+        else:
+            mspr, mspd, mans, mpos = tbb_split_model(model_out[i])
+            if mspr != s["f"].get("SPR", []) or mspd != s["f"].get("SPD", []): corr = "spanner (retained/dropped) differs from construct_spanner under the recovered scan order"
+            elif canon(s["dir"]) != canon(mans): corr = "emitted cycles (in emission order) / returned value differ from the model under the same schedule stream and insertion orders"
+            elif not s["sched"] or mpos != s["sched"][0]: corr = "number of schedule bits consumed differs from the model (%s vs %s)" % (s["sched"][:1], mpos)
+        if corr:
+            report("corr", i, "correspondence c05_tbb (%s, k=%d): %s; the answers still satisfy the property text" % (alg, k, corr), False,
+                   {"theorem_or_correspondence": TBB_CORR % alg})
+    c.extra["tbb_cases"] = len(lines)
+    c.extra["tbb_schedule_stats"] = stats
+
+
+def replay_tbb(pid, r, what):
+    lib.ensure_model("c05")
+    exe, err = lib.build_cpp(name="c05_tbb", srcs=["c05_tbb.cpp"], libs=TBB_LIBS, shim=True)
+    line = r["case"]
+    o = lib.run_lines([exe], [line], par=1)[0]
+    print("case:", line); print("impl:", o)
+    d = tbb_parse_case(line); s = tbb_split_io(o)
+    bad = None
+    if s is None: bad = "no answer: " + o[:160]
+    else:
+        opt = O.mcb(d["n"], d["es"])[0] if what == "bound" else None
+        for ans in (s["pub"], s["dir"], s["seq"]):
+            if what == "basis": why = judge_basis(d["n"], d["es"], d["k"], ans) if d["k"] >= 1 else None
+            else: why = judge_bound(d["n"], d["es"], d["k"], ans, opt)
+            bad = bad or why
+        nd = len(s["f"].get("SPD", []))
+        pa, da, sa = parse_answer(s["pub"]), parse_answer(s["dir"]), parse_answer(s["seq"])
+        if not bad and (pa[0] != da[0] or da[0] != sa[0] or (da[0] == "RET" and (not (pa[1] == da[1] == sa[1]) or not (tail_multiset(s["pub"], nd) == tail_multiset(s["dir"], nd) == tail_multiset(s["seq"], nd))))):
+            bad = "TBB and sequential entry points differ (returned value / dropped-edge cycles)"
+        mc = tbb_model_case(d, s)
+        if mc and not bad:
+            m = lib.run_model(mc[0], [mc[1]], par=1, group="c05")[0]; print("model:", m)
+            mspr, mspd, mans, mpos = tbb_split_model(m)
+            if mspr != s["f"].get("SPR", []) or mspd != s["f"].get("SPD", []) or canon(s["dir"]) != canon(mans) or not s["sched"] or mpos != s["sched"][0]:
+                bad = "differs from model"
+        elif not bad: bad = "run cannot drive the model"
+    print("judge:", bad)
+    return 1 if bad else 0
